@@ -395,6 +395,7 @@ type LockSpec struct {
 
 type FieldSpec struct {
 	Key  string // client.RpcMultiplexer.handlers
+	Labels []string
 	Disc string // guarded_by <lockfield> | atomic | init_only | single_writer ...
 	Arg  string
 	Args []string
@@ -680,7 +681,7 @@ func (sp *Specs) readFile(path string) error {
 			if len(f) < 2 {
 				return fail("bad field")
 			}
-			fs := &FieldSpec{Key: f[0], Disc: f[1], Args: f[2:]}
+			fs := &FieldSpec{Key: f[0], Disc: f[1], Args: f[2:], Labels: labels}
 			if len(f) > 2 {
 				fs.Arg = f[2]
 			}
